@@ -118,11 +118,11 @@ fn fence(conn: &mut Conn, swarm_workers: u8, step: usize) -> Result<Vec<OutMessa
     };
     ws.send_text(text).map_err(|e| Violation::new("connection-lost", format!("step {step}: cannot send on an open connection: {e}")))?;
     let mut got = Vec::new();
-    let deadline = Instant::now() + Duration::from_secs(5);
+    let deadline = Instant::now() + crate::e2e::reply_wait();
     loop {
         let left = deadline.saturating_duration_since(Instant::now());
         if left.is_zero() {
-            return Err(Violation::new("inconclusive-fence-timeout", format!("step {step}: fence scrape not answered within 5 s")));
+            return Err(Violation::new("inconclusive-fence-timeout", format!("step {step}: fence scrape not answered within the reply wait (20 s)")));
         }
         match ws.recv(left) {
             Ok(Some(m)) => {
@@ -285,7 +285,7 @@ pub fn prop(case: &Case) -> CaseResult {
                         // expect an error, then the connection closes
                         let ws = conns[ci].ws.as_mut().unwrap();
                         let mut got_error = false;
-                        let deadline = Instant::now() + Duration::from_secs(5);
+                        let deadline = Instant::now() + crate::e2e::reply_wait();
                         loop {
                             match ws.recv(deadline.saturating_duration_since(Instant::now()).max(Duration::from_millis(1))) {
                                 Ok(Some(m)) => match OutMessage::from_ws_message(m) {
@@ -295,7 +295,7 @@ pub fn prop(case: &Case) -> CaseResult {
                                 },
                                 Ok(None) => {
                                     if Instant::now() >= deadline {
-                                        vfail!("second-peer-id-not-refused", "step {step}: connection that announced a second peer id was not closed within 5 s (error seen: {got_error})");
+                                        vfail!("second-peer-id-not-refused", "step {step}: connection that announced a second peer id was not closed within the reply wait (20 s) (error seen: {got_error})");
                                     }
                                 }
                                 Err(_) => break, // closed
@@ -400,11 +400,11 @@ pub fn prop(case: &Case) -> CaseResult {
                 ws.send_text(text).map_err(|e| Violation::new("connection-lost", format!("step {step}: {e}")))?;
                 // read this scrape's own reply right away (before the fence, so that it cannot be
                 // mistaken for the fence reply)
-                let deadline = Instant::now() + Duration::from_secs(5);
+                let deadline = Instant::now() + crate::e2e::reply_wait();
                 let reply = loop {
                     match ws.recv(deadline.saturating_duration_since(Instant::now()).max(Duration::from_millis(1))) {
                         Ok(Some(m)) => break OutMessage::from_ws_message(m).map_err(|e| Violation::new("unparseable-message", format!("step {step}: {e:#}")))?,
-                        Ok(None) if Instant::now() >= deadline => vfail!("no-reply", "step {step}: scrape not answered within 5 s"),
+                        Ok(None) if Instant::now() >= deadline => vfail!("no-reply", "step {step}: scrape not answered within the reply wait (20 s)"),
                         Ok(None) => {}
                         Err(e) => vfail!("connection-lost", "step {step}: connection failed after a scrape: {e}"),
                     }
@@ -474,7 +474,7 @@ pub fn prop(case: &Case) -> CaseResult {
                 observer = Some(WsClient::connect(ipa, to).map_err(|e| Violation::new("inconclusive-connect", e))?);
             }
             {
-                let deadline = Instant::now() + Duration::from_secs(5);
+                let deadline = Instant::now() + crate::e2e::reply_wait();
                 loop {
                     let all: Vec<Hash20> = (0..6).map(|t| hash(case_id, t)).collect();
                     let req = InMessage::ScrapeRequest(ScrapeRequest { action: ScrapeAction::Scrape, info_hashes: Some(ScrapeRequestInfoHashes::Multiple(all.iter().map(|h| InfoHash(*h)).collect())) });
@@ -485,7 +485,7 @@ pub fn prop(case: &Case) -> CaseResult {
                     let ws = observer.as_mut().unwrap();
                     ws.send_text(text).map_err(|e| Violation::new("connection-lost", format!("step {step}: {e}")))?;
                     let reply = loop {
-                        match ws.recv(Duration::from_secs(5)) {
+                        match ws.recv(crate::e2e::reply_wait()) {
                             Ok(Some(m)) => match OutMessage::from_ws_message(m) {
                                 Ok(OutMessage::ScrapeResponse(s)) => break s,
                                 Ok(_) => continue, // stray message: judged by the fence below? no: keep strict
@@ -530,7 +530,7 @@ pub fn prop(case: &Case) -> CaseResult {
         if let Some(ci) = acting {
             if conns[ci].open {
                 let ws = conns[ci].ws.as_mut().unwrap();
-                let deadline = Instant::now() + Duration::from_secs(5);
+                let deadline = Instant::now() + crate::e2e::reply_wait();
                 let mut got = Vec::new();
                 loop {
                     match ws.recv(deadline.saturating_duration_since(Instant::now()).max(Duration::from_millis(1))) {
@@ -543,7 +543,7 @@ pub fn prop(case: &Case) -> CaseResult {
                             }
                         }
                         Ok(None) if Instant::now() >= deadline => {
-                            vfail!("no-reply", "step {step}: announce that is not ignored under the ownership rule got no reply within 5 s (received {:?}; spec {:?}, op {:?})", got, case.spec, op);
+                            vfail!("no-reply", "step {step}: announce that is not ignored under the ownership rule got no reply within the reply wait (20 s) (received {:?}; spec {:?}, op {:?})", got, case.spec, op);
                         }
                         Ok(None) => {}
                         Err(e) => vfail!("connection-lost", "step {step}: connection failed while waiting for an announce reply: {e}"),
@@ -706,7 +706,7 @@ pub fn specs(tier: Tier) -> Vec<Spec> {
 
 pub fn run(ctx: &mut Ctx) {
     ctx.confirm_runs = 2;
-    ctx.assume("after a connection's fence scrape is answered, everything sent to it earlier by any swarm worker has been delivered (per-channel FIFO from swarm worker to socket worker to connection; the scrape reply is merged from all swarm workers); a fence that is not answered within 5 s is reported as undecided");
+    ctx.assume("after a connection's fence scrape is answered, everything sent to it earlier by any swarm worker has been delivered (per-channel FIFO from swarm worker to socket worker to connection; the scrape reply is merged from all swarm workers); a fence that is not answered within the reply wait (20 s) is reported as undecided");
     ctx.assume("which socket worker accepts a connection is the kernel's choice (sampled); all clients are IPv4 loopback addresses; no cleaning pass happens during a run");
     ctx.run_regress::<Case, _>("ws", prop);
     let tier = ctx.tier;
